@@ -1108,9 +1108,9 @@ func genOps(r *Rng, tier string, n int, emit func(string)) {
 		for i := 0; i < np; i++ {
 			ops = append(ops, genProbe(cr, pats, methods))
 		}
-		if dump {
-			ops = append(ops, "X")
-		}
+		// the final tree (node keys, children order, size / maxParams / depth bookkeeping) is compared in every case; in
+		// the thorough tier also after every write of a third of the cases
+		ops = append(ops, "X")
 		emit("ops\t" + strings.Join(ops, ";"))
 	}
 }
